@@ -1069,6 +1069,47 @@ Proof.
   - intros n Hn. destruct (Hnode n Hn) as (a & _ & c). auto.
 Qed.
 
+(* ------------------------------------------------------------------ reachability is closed under steps *)
+Lemma run_app : forall nt T a b s,
+  run nt T s (a ++ b) = match run nt T s a with Ok s1 => run nt T s1 b | r => r end.
+Proof.
+  induction a as [|x a IH]; intros b s; cbn [run app]; auto.
+  destruct (step nt T s x); auto.
+Qed.
+
+Lemma reachable_run : forall nt T s sch s', reachable nt T s -> run nt T s sch = Ok s' -> reachable nt T s'.
+Proof. intros nt T s sch s' [sch0 H0] H. exists (sch0 ++ sch). rewrite run_app, H0. exact H. Qed.
+
+Lemma reachable_step : forall nt T s a s', reachable nt T s -> step nt T s a = Ok s' -> reachable nt T s'.
+Proof. intros. eapply (reachable_run nt T s [a]); eauto. cbn [run]. rewrite H0. reflexivity. Qed.
+
+(* [inv_life] is preserved by every step from a reachable state *)
+Theorem life_inv_step_reachable : forall nt T s a s', wf_net nt = true -> reachable nt T s ->
+  step nt T s a = Ok s' -> inv_shape nt s' /\ inv_life nt s'.
+Proof. intros. eapply life_inv_reachable; eauto. eapply reachable_step; eauto. Qed.
+
+(* C03: when Shutdown has begun no Process / ProcessAsync call of the node is in progress *)
+Theorem no_call_in_progress : forall nt T s n, wf_net nt = true -> reachable nt T s ->
+  n < length nt -> once (node s n) <> ONone -> forall x, sumf (wproc x) (ws (node s n)) = 0.
+Proof.
+  intros nt T s n Hwf Hr Hn Ho x.
+  destruct (shutdown_after_calls nt T s n Hwf Hr Hn Ho) as [Hall _].
+  induction (ws (node s n)) as [|a l IH]; cbn [sumf]; auto.
+  cbn [forallb] in Hall. apply andb_true_iff in Hall. destruct Hall as [Ha Hl].
+  rewrite (IH Hl). destruct a; cbn in *; try discriminate; reflexivity.
+Qed.
+
+(* C03: ... and no event is handed to the node in any later state *)
+Theorem no_deq_after_shutdown_begins : forall nt T s n sch s', wf_net nt = true -> reachable nt T s ->
+  n < length nt -> once (node s n) <> ONone -> run nt T s sch = Ok s' ->
+  forall w, step nt T s' (Deq n w) = NotEnabled.
+Proof.
+  intros nt T s n sch s' Hwf Hr Hn Ho Hrun.
+  apply (shutdown_after_calls nt T s' n Hwf); auto.
+  - eapply reachable_run; eauto.
+  - eapply once_entered_stable; eauto.
+Qed.
+
 (* a node with zero workers never runs its once and never drains its channel, even on a clean end *)
 Definition zw_net : net :=
   [ {| nid := 1; nkind := KSync; nworkers := 1; ncap := 1; ndisc := false; nkids := [1]; nhandler := None; nrole := RRoot |};
@@ -1116,6 +1157,9 @@ Print Assumptions once_entered_stable.
 Print Assumptions kids_open_until_shutdown_returns.
 Print Assumptions pending_targets_open.
 Print Assumptions once_enter_once.
+Print Assumptions life_inv_step_reachable.
+Print Assumptions no_call_in_progress.
+Print Assumptions no_deq_after_shutdown_begins.
 Print Assumptions clean_done.
 Print Assumptions clean_done_zero_workers.
 Print Assumptions inv_life_alone_not_inductive.
